@@ -6,7 +6,11 @@ the property) to the working tree:
 * structure: `find_siphons` / `find_traps` (and `PetriAnalyzer`) vs the model, families compared as
   sets of label sets; inputs are CRNHyperGraphs and plain NetworkX bipartite graphs in every documented
   variation (graph class, node typing, missing `stoich`, arc direction, ids, labels, order, exporter options); on a difference the Lean command `spec.petri.minimal` evaluates the right-hand
-  side of `siphons_spec` / `traps_spec` on what the implementation returned;
+  side of `siphons_spec` / `traps_spec` on what the implementation returned; whenever the input is a NetworkX graph, the LIVE object
+  is serialised node by node and edge by edge (`bip_graph_request`, i.e. `c17.bip_request`), the Lean model of the graph reading
+  (`SynKitModel/BipGraph.lean`, `BipGraphViews.lean`; driver command `bip.structure`) reads the network off it (`netOfGraph`), that
+  network must be the described one (harness self-test, `Infra` otherwise) and the EXPECTED families are `petri.structure` of it
+  (theorems `graphSiphonPred_eq`, `graphTrapPred_eq`, `graphFindSiphons_eq` tie the graph-level model to the network-level one);
 * firing: `PetriNet.add_transition / enabled / fire / marking_to_tuple` vs the model on random nets,
   markings (with missing places) and ids (unknown id -> KeyError);
 * realizability: the extended net (`M0`, `MT`, arcs), the verdict with the same bounds, validity of
@@ -30,7 +34,7 @@ import itertools
 import json
 from collections import deque
 
-from ..core import ROOT
+from ..core import ROOT, Infra
 from ..leanscope import build_and_audit_scoped
 from ..shrink import shrink_seq
 from .. import netio
@@ -53,6 +57,13 @@ THEOREMS = [
     "SynKit.Petri.bfs_complete_within_bounds_5a",
     "SynKit.Petri.bfs_never_unrealizable_within_bounds",
     "SynKit.Petri.bfs_complete_within_bounds_card",
+    "SynKit.BipGraph.graphSiphonPred_eq",
+    "SynKit.BipGraph.graphTrapPred_eq",
+    "SynKit.BipGraph.graphFindSiphons_eq",
+    "SynKit.BipGraph.graphSiphonsTraps_spec",
+    "SynKit.BipGraph.graphStructure_orientation_invariant",
+    "SynKit.BipGraph.graphStructure_undirected_eq_directed",
+    "SynKit.BipGraph.graphStructure_missing_stoich",
 ]
 
 SPEC_LIMIT = 10_000  # markings explored by the exhaustive oracle
@@ -333,13 +344,8 @@ def count_nx(ctx, case, info):
 def impl_structure(case):
     from synkit.CRN.Petri import find_siphons, find_traps
 
-    if case.get("nx"):
-        crn = nx_build(case)[0]
-    elif case.get("numeric"):
-        crn = numeric_build(case)[0]
-    elif case.get("raw"):
-        crn = to_bipartite_variant(case["desc"], case.get("render"))
-    else:
+    crn = graph_input(case)
+    if crn is None:
         crn = netio.to_hypergraph(case["desc"])
     ms = case.get("max_size")
     return {"siphons": fam(find_siphons(crn, max_size=ms)), "traps": fam(find_traps(crn, max_size=ms))}
@@ -351,6 +357,86 @@ def net_json(case):
     if case.get("numeric"):
         return netio.to_net_json_raw(numeric_build(case)[1])
     return netio.to_net_json_raw(case["desc"]) if case.get("raw") else netio.to_net_json(case["desc"])
+
+
+def graph_input(case):
+    """The NetworkX graph a structure case hands to the implementation (None: the case hands over a CRNHyperGraph)."""
+    if case.get("nx"):
+        return nx_build(case)[0]
+    if case.get("numeric"):
+        return numeric_build(case)[0]
+    if case.get("raw"):
+        return to_bipartite_variant(case["desc"], case.get("render"))
+    return None
+
+
+def bip_graph_request(G):
+    """`c17.bip_request` on the live graph.  NumPy scalars (numeric-types stream) are not Python numbers for that serialiser:
+    they are unwrapped (`.item()`: the Python number of the same value) on a copy with the same nodes and edges in the same order."""
+    import numpy as np
+
+    from .c17 import bip_request
+
+    def plain(d):
+        return {k: (v.item() if isinstance(v, np.generic) else v) for k, v in d.items()}
+    if any(isinstance(v, np.generic) for _, d in G.nodes(data=True) for v in d.values()) or \
+            any(isinstance(v, np.generic) for _, _, d in G.edges(data=True) for v in d.values()):
+        H = G.__class__()
+        H.add_nodes_from((n, plain(d)) for n, d in G.nodes(data=True))
+        H.add_edges_from((u, v, plain(d)) for u, v, d in G.edges(data=True))
+        if list(H.nodes) != list(G.nodes) or H.number_of_edges() != G.number_of_edges():
+            raise Infra("harness: unwrapping NumPy scalars changed the graph")
+        G = H
+    return bip_request(G)
+
+
+def _rx_key(r):
+    return (sorted([str(a), int(b)] for a, b in r["r"]), sorted([str(a), int(b)] for a, b in r["p"]))
+
+
+def view_matches(view, net):
+    """Harness self-test: the network the Lean model reads off the graph (`viewNet (netOfGraph g)`: species sorted by the label the
+    code reports, one reaction per reaction node) is the network the case description stands for - same species list, same multiset
+    of (consumed, produced) sides, zero coefficients included.  The rule label plays no role in C20 and is not compared (a reaction
+    node without `label` shows its node id)."""
+    return list(view["species"]) == list(net["species"]) and \
+        sorted(map(_rx_key, view["reactions"])) == sorted(map(_rx_key, net["reactions"]))
+
+
+def lean_graph_structure(ctx, entries, tag):
+    """entries: [(bip_graph_request(G), described network JSON, max_size)] -> per entry None (graph not serialisable) or the
+    `petri.structure` answer for the network the Lean model of the graph reading reads off G.  Raises Infra when that network is
+    not the described one, or when the driver's own evaluation contradicts graphSiphonPred_eq / graphTrapPred_eq / graphFindSiphons_eq."""
+    out = [None] * len(entries)
+    todo = []
+    for i, (bip, net, ms) in enumerate(entries):
+        if "cmd" not in bip:
+            ctx.count("bip:graph not serialisable: " + str(bip.get("skip")))
+            continue
+        n = len(net["species"])
+        sets = [[a] for a in range(n)] + [[a, b] for a in range(n) for b in range(a + 1, n)] + [list(range(n)), []]
+        todo.append((i, dict({k: v for k, v in bip.items() if k != "ids"}, cmd="bip.structure", max_size=ms, sets=sets)))
+    if not todo:
+        return out
+    reps = ctx.lean().ok([r for _, r in todo], shards=8)
+    for (i, req), rep in zip(todo, reps):
+        bip, net, ms = entries[i]
+        ctx.count(f"bip:graphs serialised[{tag}]")
+        ctx.count("bip:class=" + ("Multi" if bip["multi"] else "") + ("DiGraph" if bip["directed"] else "Graph"))
+        if not rep["wfCore"]:
+            ctx.count("bip:graph outside the hypotheses of the theorems (WF)")
+        elif not rep["agrees"]:
+            raise Infra("bip.structure contradicts graphSiphonPred_eq / graphTrapPred_eq / graphFindSiphons_eq on " + json.dumps(req)[:900])
+        if not view_matches(rep["view"], net):
+            raise Infra("netOfGraph (Lean model of the graph reading) differs from the network the case description stands for: "
+                        + json.dumps({"view": rep["view"], "described": net, "graph": bip})[:1500])
+        ctx.count("bip:netOfGraph = described network (self-test)")
+    models = ctx.lean().ok([{"cmd": "petri.structure", "net": rep["view"], "max_size": entries[i][2]} for (i, _), rep in zip(todo, reps)], shards=8)
+    for (i, req), rep, m in zip(todo, reps, models):
+        if rep["wfCore"] and (fam(m["siphons"]) != fam(rep["siphons"]) or fam(m["traps"]) != fam(rep["traps"])):
+            raise Infra("petri.structure on netOfGraph differs from the graph-level search of bip.structure on " + json.dumps(req)[:900])
+        out[i] = m
+    return out
 
 
 def structure_request(case):
@@ -407,6 +493,26 @@ def run_structure(ctx, cases, tag, spec_all=False, max_new=5):
         return
     start = len(ctx.violations)
     models = ctx.lean().ok([structure_request(c) for c in cases], shards=8)
+    # graph inputs: the expected families come from the Lean model of the graph reading applied to the live graph
+    where, entries = [], []
+    for i, c in enumerate(cases):
+        try:
+            G = graph_input(c)
+        except AssertionError:
+            raise
+        except Exception:  # noqa: BLE001 - the rendering itself fails: left to the description-based path below
+            continue
+        if G is not None:
+            where.append(i)
+            entries.append((bip_graph_request(G), net_json(c), c.get("max_size")))
+    for i, m in zip(where, lean_graph_structure(ctx, entries, tag)):
+        if m is None:
+            continue
+        if fam(m["siphons"]) != fam(models[i]["siphons"]) or fam(m["traps"]) != fam(models[i]["traps"]):
+            raise Infra("the model families of netOfGraph differ from those of the described network although the networks agree: "
+                        + json.dumps(cases[i])[:900])
+        models[i] = m
+        ctx.count(f"bip:expected families from the Lean model of the graph reading[{tag}]")
     pending_spec = []
     for case, model in zip(cases, models):
         if not case.get("raw"):
@@ -2238,6 +2344,8 @@ def impl_analyzer_history(case):
                 rec["traps"] = fam(find_traps(target, max_size=op["max_size"]))
                 rec["max_size"] = op["max_size"]
             rec["desc"] = now()
+            if raw:  # the live graph as the implementation saw it at this query
+                rec["bip"] = bip_graph_request(crn)
             if not raw:
                 rec["enc"] = netio.check_encoding(rec["desc"], crn)
         except ValueError as e:  # a network without reaction (or species) nodes is rejected
@@ -2288,6 +2396,22 @@ def run_analyzer_histories(ctx, cases, tag):
     runs = [impl_analyzer_history(c) for c in cases]
     reqs = [analyzer_history_requests(c, st) for c, st in zip(cases, runs)]
     answers = ctx.lean().ok([r for rq in reqs for r in rq], shards=8)
+    # bipartite-graph histories: the expected families come from the Lean model of the graph reading applied to the live graph
+    where, entries, start = [], [], 0
+    for steps, rq in zip(runs, reqs):
+        gated = [rec for rec in steps if "siphons" in rec]
+        for k, rec in enumerate(gated):
+            if "bip" in rec:
+                where.append(start + k)
+                entries.append((rec["bip"], rq[k]["net"], rec["max_size"]))
+        start += len(rq)
+    for idx, m in zip(where, lean_graph_structure(ctx, entries, tag)):
+        if m is None:
+            continue
+        if fam(m["siphons"]) != fam(answers[idx]["siphons"]) or fam(m["traps"]) != fam(answers[idx]["traps"]):
+            raise Infra("analyzer history: the model families of netOfGraph differ from those of the described network although the networks agree")
+        answers[idx] = m
+        ctx.count(f"bip:expected families from the Lean model of the graph reading[{tag}]")
     pos = 0
     reported, pending = 0, []
     for case, steps, rq in zip(cases, runs, reqs):
@@ -2356,6 +2480,11 @@ def run(ctx):
         "harness/props/c20.py adapters, canonicalisation (families as sorted lists of sorted label lists) and its exhaustive reachability oracle",
         "modelled: find_siphons, find_traps (incl. max_size), _minimal_sets, PetriNet.add_place/add_transition/enabled/fire/marking_to_tuple, "
         "build_petri_net_from_flow, is_realizable; not modelled: semiflows and the persistence test (numerical), Koenig test, scaled/borrow variants",
+        "graph inputs (every structure case / analyzer history that hands over a NetworkX graph): hand-written model SynKitModel/BipGraph.lean + "
+        "BipGraphViews.lean of the graph reading (_as_bipartite, _split_species_reactions, _species_order, _incident_edges, _is_siphon_indices, "
+        "_is_trap_indices), Driver/BipGraph.lean (bip.structure), the serialiser c17.bip_request (NumPy scalars unwrapped by bip_graph_request); "
+        "the expected families are petri.structure of the network that model reads off the live graph, which is asserted to be the described "
+        "network (self-test; not modelled: the ValueError of a graph without species or reaction nodes, see the degenerate stream)",
     ]
     ctx.assumptions = [
         "species labels are distinct strings that do not start with '__ext__' or '__target__' (the code builds place names by concatenation)",
